@@ -157,7 +157,7 @@ CHOICES = {
                          ["s", None, None, None, [["so", [["x", {"c": "1"}]]]]], ["s", sur(["o1", "k"]), None, None, None],
                          ["nope", sur(["o1"]), None, None, None], ["x", sur(["o1"]), None, None, None],
                          ["s", None, None, ["sf", "so"], None], ["s", sur(["o1", "o1"]), None, None, None],
-                         ["s", None, None, ["so", "time"], None], ["s", sur(["o7"], ("k",)), ["x"], ["so", "sf"], []],
+                         ["s", None, None, ["so", "time"], None], ["s", None, None, ["so", "s"], None], ["s", sur(["o7"], ("k",)), ["x"], ["so", "sf"], []],
                          ["s", None, None, None, [["sf", [["y", fn(["dp"], A(0))], ["x", fn(["time"], A(0))]]]]]],
     "remove_surrogate": [["s"], ["x"], ["so"], ["nope"]],
     "add_data": [["n1", "3"], ["dd", "3"], ["x", "3"], ["time", "1"], ["sf", "1"]],
@@ -336,6 +336,35 @@ def shadow_histories():
             mid = ([q] if q else []) + [["add_surrogate", "n2", su]] + data + qs
             yield {"ops": BASE + mid + BATTERY[-2:], "check_from": len(BASE), "stratum": "shadow",
                    "shape": f"shadow:{len(data)}"}
+
+
+def scan_histories():
+    """how scans and control analysis use a model, without a Simulator: a working copy, then per point
+    `update_*` → queries, and the value put back at the end; `scale_parameter` up and down around a query; an
+    assignment-defined parameter overwritten by a number and restored"""
+    q_rhs, q_flux, q_init = ["q", "rhs", None, "0"], ["q", "fluxes", None, "0"], ["q", "init"]
+    q_state = ["q", "fluxes", ["2", "1", "3"], "1"]
+    pats = {
+        "scan:parameter": [o for v in ("1", "2", "1/2") for o in (["update_parameters", [["k", V(v)]]], q_rhs, q_flux)]
+        + [["update_parameters", [["k", V(3)]]], q_rhs],
+        "scan:two": [o for v in ("1", "4") for o in (["update_parameters", [["k", V(v)], ["p", V(v)]]], q_flux, ["q", "pvals"])]
+        + [["update_parameters", [["k", V(3)], ["p", V("1/2")]]], q_flux],
+        "scan:initial": [o for v in ("2", "0") for o in (["update_variables", [["x", V(v)]]], q_init, q_rhs)]
+        + [["update_variable", "x", V(1)], q_init, q_rhs],
+        "mca:scale": [["scale_parameter", "k", "2"], q_flux, ["scale_parameter", "k", "1/2"], q_flux,
+                      ["scale_parameters", [["k", "2"], ["p", "4"]]], q_state, ["scale_parameters", [["k", "1/2"], ["p", "1/4"]]],
+                      q_state, ["q", "pvals"]],
+        "mca:state": [q_state, ["update_variable", "y", V(4)], q_state, ["q", "stoich", None, "0"], ["update_variable", "y", V(2)],
+                      q_state],
+        "scan:assigned": [["update_parameter", "q", V(5)], q_rhs, ["q", "classes"],
+                          ["update_parameter", "q", {"ia": fn(["dd"], ["*", A(0), K(2)])}], q_rhs, ["q", "pvals"]],
+        "scan:unknown": [["update_parameters", [["k", V(1)], ["nope", V(2)]]], q_rhs, ["scale_parameter", "nope", "2"], q_flux],
+    }
+    pres = ([], [QUERIES[0]], [QUERIES[0], ["fork"]], [["fork"], QUERIES[2]], [QUERIES[2], ["fork", "pickle"]])
+    for name, body in pats.items():
+        for pre in pres:
+            yield {"ops": BASE + pre + body + [["q", "eq"]] + BATTERY[-2:], "check_from": len(BASE), "stratum": "scan",
+                   "shape": name}
 
 
 def copy_histories():
